@@ -35,7 +35,7 @@ def queries(tier):
                             fp=[(r"_enc", [enc])], stubs=["libc.c", "libc_loops.c", "abort.c"], flags=["--max-field-sensitivity-array-size", "300"], timeout=600,
                             bounds="output ring of 8 bytes starting at offset %d%s; one message of 0..3 symbolic bytes in 1-2 pushes at every split, then terminated" % (off, ", %d earlier empty frame(s) still queued" % prev if prev else ""),
                             outside="messages above 3 bytes; more than one earlier frame; capacity exhaustion; stream layers"))
-    for off in ((1, 4, 5) if tier == "quick" else range(6)):
+    for off in range(6):
         qs.append(Q("shift_off%d" % off, "C02/shift.c", units=["mptcore/queue/queue_shift.c", "mptcore/queue/queue_crop.c", "mptcore/queue/queue_data.c", "mptcore/queue/memrev.c"],
                     harness_defines={"QMAX": 6, "OFF": off}, unwind_default=8, stubs=["libc.c", "libc_loops.c"], flags=["--max-field-sensitivity-array-size", "100"],
                     unwind={"memcpy": 10, "memmove": 10, "memset": 10, "mpt_memrev": 4, "mpt_memswap": 4},
